@@ -303,7 +303,13 @@ func (g *genr) runCase(id string, w, h int, next func(i int, w, h int) (string, 
 
 func (g *genr) flush() {
 	for i, res := range emuh.RunCases(g.jobs, 12) {
-		g.r.Case(g.jobs[i].ID)
+		if j := g.jobs[i]; len(j.Prefix) > 0 {
+			// round 5: a case whose prefix ran silently carries it in its id, so that the replay of a failure is the
+			// whole history (size, prefix, ops) and not only `adopt` + the last op
+			g.r.Case(j.ID + " after: " + fmt.Sprintf("new %d %d", j.W, j.H) + " | " + strings.Join(j.Prefix, " | "))
+		} else {
+			g.r.Case(j.ID)
+		}
 		for _, l := range res.Lines {
 			g.r.Emit(l[0], l[1])
 			if f := strings.Fields(l[0]); len(f) > 0 {
@@ -399,9 +405,19 @@ func run(r *hx.Run) error {
 	if r.Replay != "" {
 		t := &emuh.Term{}
 		defer t.Close()
+		last := ""
 		return hx.ReplayOps(r, func(op []string) (string, bool) {
 			if len(op) > 0 && strings.HasPrefix(op[0], "#case") {
+				// `#case <id> after: new W H | op | op`: run the silent prefix again
+				if _, hist, ok := strings.Cut(strings.Join(op, " "), " after: "); ok {
+					for _, p := range strings.Split(hist, " | ") {
+						last, _ = t.Apply(strings.TrimSpace(p))
+					}
+				}
 				return "-", true
+			}
+			if len(op) == 1 && op[0] == "adopt" {
+				return last, true
 			}
 			return t.Apply(strings.Join(op, " "))
 		})
